@@ -64,7 +64,7 @@ utf8dec(uint_least32_t *c, const unsigned char *s, size_t n)
 			return -1;
 		x = x << 6 | b & 0x3f;
 	}
-	if (x >= 0x110000 || x - 0xd800 < 0x0200)
+	if (x >= 0x110000 || x - 0xd800 < 0x0800)
 		return -1;
 	*c = x;
 	return l;
